@@ -71,6 +71,8 @@ class Hist:
         kind = acc[0]
         if kind == 'vara':
             return 'vara t4 c 2 %d %d %d 2' % (acc[1], c0, acc[2])
+        if kind == 'bad':      # column out of bounds: the dispatcher rejects it (NC_EINVALCOORDS), NC_REQ_ZERO path
+            return 'vara t4 c 2 %d %d 1 2' % (acc[1], 1000 + c0)
         if kind == 'vars':
             return 'vars t4 c 2 %d %d %d 2 %d 1' % (acc[1], c0, acc[2], acc[3])
         if kind == 'varn':
@@ -129,9 +131,9 @@ class Hist:
             a = accs[k]
             ls.append('%d put 0 c %d %s%s' % (k, VARS[var], self._zero_tokens(var) if a is None else self._acc_tokens(k, var, a), self._pat()))
         idx = self._group(ls)
-        done = [(hi_of(a) if (a is not None and isrec) else 0) for a in accs]
+        done = [(hi_of(a) if (a is not None and isrec and a[0] != 'bad') else 0) for a in accs]
         if isrec:
-            mop = ('CollPutRec', [('PNone',) if a is None else ('PRec', hi_of(a) - 1) for a in accs])
+            mop = ('CollPutRec', [('PNone',) if a is None else ('PInvalid',) if a[0] == 'bad' else ('PRec', hi_of(a) - 1) for a in accs])
         else:
             mop = ('CollPutFix',)
         ok = not self.indef and not self.indep
@@ -611,6 +613,9 @@ def directed():
     # fill in independent mode (dispatcher computes NC_EINDEP but does not return it outside safe mode)
     h = Hist(2, 1, name='fill-indep-misuse')
     h.simple('begin_indep'); h.indep_put(1, 'R', ('vara', 5, 1)); h.fill('R', [2, 2]); h.simple('end_indep'); h.close(); hs.append(h)
+    # every rank passes an invalid start: all take the NC_REQ_ZERO path (no Allreduce, no hang, no change)
+    h = Hist(2, 1, name='all-invalid')
+    h.coll_put('R', [('vara', 2, 1), None]); h.coll_put('R', [('bad', 7), ('bad', 8)]); h.coll_put('R', [None, ('vara', 4, 1)]); h.close(); hs.append(h)
     # bput
     h = Hist(2, 1, bput=True, name='bput')
     a = h.post(0, 'R', ('vara', 1, 2), api='bput'); b = h.post(1, 'R', ('vara', 8, 1), api='bput'); c = h.post(1, 'F', ('vara', 0, 2), api='bput')
